@@ -58,6 +58,7 @@ type Options struct {
 	ClosureHeavy    bool         // more closures and captured assignments (C11)
 	NoExportIgnored bool
 	InModule        bool // generating a module body (export allowed, return allowed)
+	CaptureLoopVars bool // closures that outlive an iteration may capture loop-scoped variables (scope-dependent semantics: only for checks judged by the reference model at a fixed placement)
 	ExportType      T
 	NoFloatFormat   bool
 	CallDefined     bool // call every function right after its definition
@@ -88,6 +89,7 @@ type G struct {
 	// the current loop iteration: loop-scoped variables must not be captured
 	hideLoopLevel []int
 	hideFn        []int
+	fnHidden      []bool
 	budget        int
 	top           []string
 }
@@ -708,6 +710,13 @@ var _ = fmt.Sprint
 
 // hideFn parallels hideLoopLevel.
 func (g *G) enterFn(immediatelyInvoked bool) {
+	if g.o.CaptureLoopVars && g.cur().inFn {
+		// inside a function every execution of a declaration makes a fresh variable, which the
+		// model knows; at the top level declarations are global slots (shared, and re-used by
+		// sibling blocks), which it does not: there loop-scoped variables stay hidden
+		immediatelyInvoked = true
+	}
+	g.fnHidden = append(g.fnHidden, !immediatelyInvoked)
 	if !immediatelyInvoked {
 		g.hideLoopLevel = append(g.hideLoopLevel, 0)
 		g.hideFn = append(g.hideFn, len(g.fns))
@@ -717,6 +726,9 @@ func (g *G) enterFn(immediatelyInvoked bool) {
 }
 
 func (g *G) leaveFn(immediatelyInvoked bool) {
+	hidden := g.fnHidden[len(g.fnHidden)-1]
+	g.fnHidden = g.fnHidden[:len(g.fnHidden)-1]
+	immediatelyInvoked = !hidden
 	g.pop()
 	g.fns = g.fns[:len(g.fns)-1]
 	if !immediatelyInvoked {
